@@ -49,10 +49,17 @@ namespace xtl
     inline std::string executable_path()
     {
         std::string path;
-#if defined(UNICODE)
-    wchar_t buffer[1024];
+#if defined(XTL_VERIF) && defined(XTL_VERIF_PATH_BUFFER)
+    // verification hook: scaled-down internal buffer, so that the behaviour at the
+    // buffer boundary can be explored with short paths; the code is otherwise unchanged
+    constexpr std::size_t path_buffer_size = XTL_VERIF_PATH_BUFFER;
 #else
-    char buffer[1024];
+    constexpr std::size_t path_buffer_size = 1024;
+#endif
+#if defined(UNICODE)
+    wchar_t buffer[path_buffer_size];
+#else
+    char buffer[path_buffer_size];
 #endif
         std::memset(buffer, '\0', sizeof(buffer));
 #if defined(__linux__)
